@@ -665,3 +665,35 @@ def deep_reorg_restart_scenario(rnd):
     s = gen.scenario(0)
     s["tag"] = "deep-reorg-restart"
     return s
+
+
+def gap_payout_scenario(rnd):
+    """steady fees for a few blocks (so that the smoothed average, which caps payouts, is of the order of the
+    current fees), then a block without a ticket whose fees differ a lot from its parent's, then a ticket: the
+    payout covers two blocks and must not exceed what they collected"""
+    gen = Gen(rnd, 10, 3)
+    gen.hb = 100
+    gen.issuance = [[rnd.choice(gen.keys), rnd.choice([300000, 500000])] for _ in range(14)]
+    gen.outs = {"g%d" % i: (k, 1) for i, (k, a) in enumerate(gen.issuance)}
+    gen.snap = {"b1": (dict(gen.outs), 1, {})}
+    lead = rnd.randint(1, 4)
+    fees = [rnd.choice([5000, 20000, 100000]) for _ in range(lead)]
+    small, big = rnd.choice([(1000, 10000), (500, 4000), (2000, 3500), (10000, 1000)])
+    fees += [small, big, rnd.choice([0, 1000])]
+    tickets = [True] * lead + [rnd.random() < 0.7, False, True]
+    for b, (fee, gt) in enumerate(zip(fees, tickets)):
+        h = gen.h + 1
+        t = gen.newtx(h, fee_p=0.0, path_p=0.0, two_in_p=0.0)
+        if not t:
+            break
+        t["fee"] = fee
+        others = [k for k in gen.keys if k != t["signer"]]
+        t["path"] = rnd.choice([[t["signer"], "c"], [t["signer"], rnd.choice(others), "c"], []]) if fee else []
+        label = "b%d" % h
+        gen.steps.append(dict(op="block", label=label, gt=gt, txs=[t], tag="good", gap=rnd.choice([4, 5]), gt_seed=b * 17 + lead))
+        gen.apply(t, h)
+        gen.h = h
+        gen.chain.append(label)
+        gen.snap[label] = (dict(gen.outs), h, dict(gen.spent))
+    return dict(g=gen.g, hb=gen.hb, keys=len(gen.keys), issuance=gen.issuance, node_key="k1", replica=False,
+                steps=gen.steps, tag="gap-payout")
